@@ -385,3 +385,45 @@ PROPS["C07"] = {
     "assumptions": ["theorems are over exact arithmetic (any ordered field; signum 0 = 1, no NaN); `as i32` maps 1 to 1 and -1 to -1 (I32Spec)",
                     "invariance and winding theorems assume what they state about the result of ray_collisions (re-labelled / faithful list); 0 <= f64::EPSILON <= 1, EPSILON != 1"],
 }
+
+PROPS["C14"] = {
+    "title": "Ray casting against a closed path is ordered and has even parity",
+    "gen_modules": ["Consts", "Basis", "Lines", "CurveLine", "FatLine", "Walk", "Ray"],
+    "corr_n": (2000, 40000),
+    "search_n": (1000, 20000),
+    "technique": "Lean 4 theorems (side-test soundness, inert filters, balanced-graph parity, per-edge parity over the reals via the intermediate value theorem, "
+                 "comparator = position order outside the tie window, stable-sort lemmas, concrete witnesses of the comparator defects) about kernels translated from "
+                 "path/ray.rs and graph_path/*.rs on every run plus a literal hand model of the pipeline glue + bit-exact Float mirror of the whole of ray_collisions",
+    "level_text": "Translated on every run: ray_can_intersect, curve_is_collinear, crossing_edges, both collinear-section filters, collision_is_at_start/end, edges_are_glancing, "
+                  "remove_tangent_collisions, flag_collisions_at_intersections, the sort comparator (closure of ray_collisions), edges_overlap, control_points_overlap, tangent/normal_at_pos, "
+                  "to_unit_vector, pos_for_point and GraphPath's RayPath implementation. Proved for ALL paths, graphs and rays over any ordered field: WrongSide is answered only when the signed distance "
+                  "keeps one sign on the whole edge (Bernstein form), so no transversal crossing is pruned; the collinear branches need both end vertices within 0.001 of the ray; under the precondition "
+                  "(no collinear edge, no hit within 0.001 of its edge's end vertices, tangent filter keeps every hit - implied by 'every vertex 0.1 away, nowhere tangent': far_start_not_collinear, "
+                  "far_vertex_not_near) every filter is the identity and the collisions before the sort are exactly the solver's hits on the edges passing the side test (filters_inert), each returned collision "
+                  "is such a hit with edge, parameter, line position and point unchanged and - with C04's curve_intersects_ray - lies on its edge and on the ray (collision_on_edge_and_ray); in a balanced "
+                  "graph (every closed path; checked on every real graph by a test proven sound) the number of edges whose ends lie on different sides is even, hence the number of collisions is even "
+                  "given the per-edge fact 'odd number of hits iff ends on different sides' (collisions_even), which is proved over the reals for an exact solver and simple roots by the intermediate value "
+                  "theorem (edge_parity; assembled: ray_collisions_even); the sort only permutes; outside the tie window the comparator IS the comparison of line positions, a total preorder, and the "
+                  "output is sorted by position (sorted_outside_window); any list ordered by the comparator is ordered by position up to ties (sorted_up_to_ties). "
+                  "The model (generated kernels + hand-written loop glue + stable sort) reproduces GraphPath::ray_collisions bit for bit on closed paths and collided graphs incl. rays through vertices, "
+                  "along edges, tangent, through shared edges, nearly coincident boundaries.",
+    "level_note": "Partial. Exact arithmetic, exact cubic solver (contract) and simple roots are hypotheses of the parity chain; binary64 rounding and the real solver are covered by the search only (1/2000-grid sign "
+                  "changes per edge, sortedness, evenness, on-edge/on-line 1e-6). Inside the tie window (positions within 0.001 in x and y on 'overlapping' edges) no order theorem holds, because the comparator "
+                  "is not a total order - recorded as theorems with concrete witnesses: edges_overlap is not symmetric and the comparator not antisymmetric (control_points_overlap compares signed distances "
+                  "without abs and tests cp2_b twice), control points 49 units apart 'overlap', and the position/priority mix is not transitive (sort result depends on input order). "
+                  "On real graphs the generated comparator is inconsistent on about 1 ray in 3000 over nearly coincident shapes (the driver detects it and then compares multisets only; Rust's sort may panic "
+                  "there: known finding of C01/C11/C12). The loop of crossing_and_collinear_collisions and the stateful vertex filter are a literal hand model tied by the bit-exact run, not by translation; "
+                  "the `expect` of ray.rs:575 is a panic site the model replaces by a default. " + COMMON_NOTE,
+    "rule": "corr: graphs = fixed corpus of tangent / identical / shared-edge pairs, random closed paths of every shape kind, collided pairs of every relation class, nearly coincident pairs (incl. the "
+            "known total-order panic pair) and one fixed instance of an output not ordered by position; 10 rays per graph of classes random, axis-parallel, offset from a vertex coordinate, through (shared) edge "
+            "interior, through a vertex, through two vertices, along a straight edge, tangent to an edge. The transcript carries the graph as the RayPath interface exposes it, the real curve_intersects_ray "
+            "result per edge and the real ray_collisions output; the driver compares reverse_edges_for_point, balance, the collisions as a multiset, order by the generated comparator, and the exact order "
+            "whenever the comparator is a total preorder on the list (counted as float_mirror_compared). search: the property itself on the real code (closed paths, collided pairs of every relation class, nearly coincident pairs) for rays inside the precondition (20 per graph): "
+            "evenness, each collision on its edge and on the line (1e-6), order (ties = within 0.001 in x and y on edges that run within 0.0015 of each other), count per edge = sign changes on a 1/2000 grid. "
+            "Non-trivial: the ray meets the graph; distinct by input.",
+    "trusted_base": ["hand model Model/Ray.lean of the loop of crossing_and_collinear_collisions, the vertex-filter closure, the pipeline composition and the stable sort (tied by the bit-exact correspondence run)",
+                     "curve_intersects_ray is a parameter of the model (C04); its real results are fed to the model in the correspondence run",
+                     "search oracle: sign changes of the signed distance on a 1/2000 grid of each edge"],
+    "assumptions": ["exact arithmetic, exact cubic solver and simple roots (nowhere tangent) for the parity theorems", "graph balanced (in-degree = out-degree at every vertex): checked on every real graph, proved for closed vertex cycles",
+                    "NaN-free inputs (partial_cmp never fails in the model)"],
+}
